@@ -319,6 +319,11 @@ struct Gen {
     S text(bool all_units) {
         S        s;
         unsigned n = r.below(8);
+        if (r.chance(1, 80)) {
+            // long payloads: string storage and the stringifier's buffers pass their first capacity classes
+            static const unsigned big[] = {31, 32, 33, 127, 128, 129, 255, 256, 257, 600};
+            n                           = big[r.below(10)];
+        }
         for (unsigned i = 0; i < n; ++i) {
             unsigned k = r.below(all_units ? 16 : 8);
             switch (k) {
